@@ -4,8 +4,8 @@ from ..pyvc.engine import Registry
 
 def build():
     reg = Registry()
-    from . import hypergraph, directed, temporal, multiplex
-    mods = [hypergraph, directed, temporal, multiplex]
+    from . import hypergraph, directed, temporal, multiplex, cc
+    mods = [hypergraph, directed, temporal, multiplex, cc]
     for m in mods:
         if hasattr(m, "LAYOUT"):
             reg.add_layout(m.LAYOUT)
